@@ -93,7 +93,8 @@ pub fn execute_all(w: &Value) -> Value {
             config.timeout = dur(&t["timeout"]);
             config.skip_document_code = t["skip"].as_i64().map(|x| x as i32);
         }
-        TestCase { title: "t".into(), shell_expression: "x".into(), expectations: vec![], exit_code: None, line_number: i + 1, config }
+        TestCase { title: "t".into(), shell_expression: "x".into(), expectations: vec![], exit_code: t["expected"].as_i64().map(|x| x as i32),
+                   line_number: i + 1, config }
     }).collect();
     let refs: Vec<&TestCase> = tests.iter().collect();
     let mut doc = DocumentConfig::empty();
